@@ -87,10 +87,11 @@ def overshoot_inputs(fmtname, k):
 def confirm(v, oracle):
     if v['kind'] in ('panic', 'steplimit'):
         st, payload = oracle.ask(ENTRIES[v['entry']], v['fmt'], hexs(v['input']))
-        ok = (st == 'panic') if v['kind'] == 'panic' else False
+        ok = (st == 'panic') if v['kind'] == 'panic' else (st == 'timeout')
+        if st == 'timeout': payload = 'no answer within 20 s (the interpreter exceeded its step budget on the same input)'
         return {'confirmed': ok, 'why': 'native status %s' % st,
                 'replay': {'op': ENTRIES[v['entry']], 'args': [v['fmt'], hexs(v['input'])], 'input': show(v['input']), 'expect': 'no panic'},
-                'what': 'panic in %s on %s input %r: %s' % (v['where'].split('::')[-1], v['fmt'], show(v['input']), payload if st == 'panic' else '')}
+                'what': '%s in %s on %s %s input %r: %s' % ('panic' if st == 'panic' else 'non-termination', v['where'].split('::')[-1], v['fmt'], v['entry'], show(v['input']), payload if st in ('panic', 'timeout') else '')}
     if v['kind'] == 'panic-window':
         st, payload = oracle.ask('perr_new', hexs('a' * v['len']), str(v['index']))
         if st != 'panic': return {'confirmed': False, 'why': 'ParseError::new did not panic natively'}
